@@ -208,6 +208,14 @@ def op_job(spec: OpSpec, cfg: Dict[str, Any]) -> Callable[[], Record]:
     return run
 
 
+def _between(ctx: Ctx, name: str, v: Any, lo: Any, hi: Any) -> None:
+    """C04: an empirical scale lies between its flat and sharp limit (both limits given as
+    (square numerator, square denominator) to stay in exact arithmetic)"""
+    a2, b2 = lo, hi
+    v2 = v * v
+    ctx.oblige(name, z3.And(v > 0, z3.Or(z3.And(v2 >= a2, v2 <= b2), z3.And(v2 >= b2, v2 <= a2))), value=str(v)[:160])
+
+
 def _run(ctx: Ctx, name: str, **kw: Any) -> Run:
     r = Run(ctx, name, **kw)
     ctx.__dict__.setdefault("_runs", []).append(r)
@@ -231,6 +239,15 @@ class Gelu(OpSpec):
     def make(self, ctx: Ctx, cfg: Dict[str, Any]) -> Any:
         return {"input": leaf(ctx, "input", Shape([_run(ctx, "a")])), "mult": pos_real(ctx, "mult"), "approximate": opaque(ctx, "approximate")}, {}
 
+    def extra(self, p: PathResult, cfg: Any, args: Any, meta: Any, res: Any, k: Any, bs: Any) -> None:
+        if cfg.get("constraint") is None and k is not None:
+            from pyvc.sym import PI
+
+            # output scale between 2 (flat limit) and sqrt(2/(1-1/pi)) (sharp limit); gradient scale between 2 and sqrt(2)
+            _between(p.ctx, "C04:functional.gelu:output_scale_between_flat_and_sharp_limit", k, z3.RealVal(4), 2 / (1 - 1 / PI))
+            if "input" in bs:
+                _between(p.ctx, "C04:functional.gelu:grad_scale_between_flat_and_sharp_limit", bs["input"], z3.RealVal(4), z3.RealVal(2))
+
 
 class Silu(OpSpec):
     name = "silu"
@@ -242,6 +259,14 @@ class Silu(OpSpec):
     def make(self, ctx: Ctx, cfg: Dict[str, Any]) -> Any:
         return {"input": leaf(ctx, "input", Shape([_run(ctx, "a")])), "mult": pos_real(ctx, "mult"), "inplace": False}, {}
 
+    def extra(self, p: PathResult, cfg: Any, args: Any, meta: Any, res: Any, k: Any, bs: Any) -> None:
+        if cfg.get("constraint") is None and k is not None:
+            from pyvc.sym import PI
+
+            _between(p.ctx, "C04:functional.silu:output_scale_between_flat_and_sharp_limit", k, z3.RealVal(4), 2 / (1 - 1 / PI))
+            if "input" in bs:
+                _between(p.ctx, "C04:functional.silu:grad_scale_between_flat_and_sharp_limit", bs["input"], z3.RealVal(4), z3.RealVal(2))
+
 
 class SiluGlu(OpSpec):
     name = "silu_glu"
@@ -250,6 +275,10 @@ class SiluGlu(OpSpec):
     def make(self, ctx: Ctx, cfg: Dict[str, Any]) -> Any:
         sh = Shape([_run(ctx, "a")])
         return {"input": leaf(ctx, "input", sh), "gate": leaf(ctx, "gate", sh), "mult": pos_real(ctx, "mult")}, {}
+
+    def extra(self, p: PathResult, cfg: Any, args: Any, meta: Any, res: Any, k: Any, bs: Any) -> None:
+        if k is not None:
+            _between(p.ctx, "C04:functional.silu_glu:scale_between_flat_and_sharp_limit", k, z3.RealVal(4), z3.RealVal(2))
 
 
 class Softmax(OpSpec):
@@ -269,7 +298,16 @@ class Softmax(OpSpec):
         if cfg["dtype"] == "given":
             dt = z3.Const("dtype_arg", tz.DT)
             ctx.assume(torchmodel.is_float_dtype(dt))
-        return {"input": x, "dim": d, "dtype": dt, "mult": pos_real(ctx, "mult")}, {}
+        return {"input": x, "dim": d, "dtype": dt, "mult": pos_real(ctx, "mult")}, {"x": x}
+
+    def extra(self, p: PathResult, cfg: Any, args: Any, meta: Any, res: Any, k: Any, bs: Any) -> None:
+        if cfg.get("constraint") is None and k is not None:
+            # between the flat limit n and the one-hot limit sqrt(n), n = size of the softmax dimension >= 1
+            n = zreal(args["input"].shape.getitem(p.ctx, args["dim"]))
+            _between(p.ctx, "C04:functional.softmax:output_scale_between_flat_and_one_hot_limit", k, n * n, n)
+            if "input" in bs:
+                m = args["mult"].z
+                _between(p.ctx, "C04:functional.softmax:grad_scale_between_flat_and_one_hot_limit", bs["input"], (n / m) * (n / m), n / m)
 
 
 class Dropout(OpSpec):
@@ -608,7 +646,7 @@ def _key(spec: OpSpec, cfg: Dict[str, Any]) -> str:
 
 for _spec in OPS:
     for _cfg in _spec.configs():
-        register(Job(_key(_spec, _cfg), ["C01", "C02", "C03", "C05"] + (["C04"] if _spec.name == "cross_entropy" else []), UF + _spec.name, _cfg, op_job(_spec, _cfg)))
+        register(Job(_key(_spec, _cfg), ["C01", "C02", "C03", "C05"] + (["C04"] if _spec.name in ("cross_entropy", "gelu", "silu", "silu_glu", "softmax", "layer_norm", "rms_norm") else []), UF + _spec.name, _cfg, op_job(_spec, _cfg)))
 
 
 # ------------------------------------------------------------------ C01: argument guard
